@@ -15,6 +15,7 @@ Spec (form)::
    "integrals": [{"m": "dx"|"ds"|"dS"|"dP"|"dr", "id": null|int|[int..],
                   "md": {"quadrature_degree": q, "quadrature_rule": s}, "e": <tree>}, ...],
    "transform": null | ["derivative", k] | ["adjoint"] | ["action", k] | ["lhs"] | ["rhs"],
+   "mesh2": [ei, ...],                 # element indices whose function space lives on a second mesh of the same cell type
    "prelude": n}                       # number of unrelated objects created first (C12/C13)
 
 Element descriptions <E>::
@@ -308,9 +309,14 @@ def to_source(spec, form_name="a", with_prelude=True) -> str:
         L.append(f'_pV{i} = ufl.FunctionSpace(_pm{i}, basix.ufl.element("Lagrange", cell, 1))')
         L.append(f"_pf{i} = ufl.Coefficient(_pV{i}); _pc{i} = ufl.Constant(_pm{i})")
     L.append(mesh_src(spec))
+    on2 = set(spec.get("mesh2") or [])
+    if on2:
+        # a second mesh of the same cell type ("codimension-0 sub-mesh", as in test_submesh.py): some spaces live on it, the
+        # integration domain stays `mesh`
+        L.append(mesh_src(spec, name="mesh2"))
     for i, E in enumerate(spec.get("elements", [])):
         L.append(f"E{i} = {element_src(E)}")
-        L.append(f"V{i} = ufl.FunctionSpace(mesh, E{i})")
+        L.append(f"V{i} = ufl.FunctionSpace({'mesh2' if i in on2 else 'mesh'}, E{i})")
     # creation order of form arguments / coefficients / constants
     decl = []
     args = spec.get("args", [])
